@@ -403,6 +403,7 @@ def rule_hash(ctx, repo):
     ci, fn = repo.method("Model", "get_md5", MODEL)
     # what get_md5 hashes: (registry, attribute) pairs
     hashed = set()
+    conditional = []
     for n in walk_noscope(fn):
         if isinstance(n, ast.For):
             reg = dotted(n.iter) or ""
@@ -417,8 +418,21 @@ def rule_hash(ctx, repo):
                             if a == lv:
                                 hashed.add((reg, "<name>"))
                             elif lv and a.startswith(lv + "."):
-                                hashed.add((reg, a[len(lv) + 1:].split(".")[0]))
+                                attr = a[len(lv) + 1:].split(".")[0]
+                                # the update may be conditional only on the presence of the SAME attribute: an update that also
+                                # depends on another attribute (elif chain, extra condition) leaves some declarations unhashed
+                                g_ = _guards_of(n, c)
+                                foreign = [x for x in g_ if not _only_mentions(x[0], lv, attr)]
+                                if foreign:
+                                    conditional.append((reg, attr, src(foreign[0][0]), foreign[0][1]))
+                                else:
+                                    hashed.add((reg, attr))
     ctx.anchor("get_md5 hashes %s" % sorted(hashed), repo.W(ci, fn))
+    for reg, attr, cond, pol in conditional:
+        if (reg, attr) not in hashed:
+            ctx.violation("C02.hash", "%s.%s/conditional" % (reg, attr),
+                          "`%s` is hashed only when `%s` is %s: for the other declarations an edit of `%s` leaves the checksum unchanged and "
+                          "stale generated code is used" % (attr, cond, pol, attr), repo.W(ci, fn))
     # what the generator consumes (from reading symprocessor.py; confirmed instance by instance):
     consumed = [
         ("cache.all_vars", "e_str", "generate_equations"),
@@ -453,6 +467,30 @@ def rule_hash(ctx, repo):
         ctx.check(ok, "C02.hash", c, "hashed (used by %s)" % user,
                   "`%s` of `%s` is consumed by SymProcessor.%s but is not fed to md5 in Model.get_md5: "
                   "editing it leaves stale generated code in use" % (attr, reg, user), repo.W(ci, fn))
+
+
+def _guards_of(loop, call):
+    """[(test, polarity)] of the if/elif conditions enclosing `call` inside `loop`."""
+    out = []
+
+    def rec(stmts, conds):
+        for st in stmts:
+            if isinstance(st, ast.If):
+                if any(x is call for b_ in st.body for x in ast.walk(b_)):
+                    return rec(st.body, conds + [(st.test, True)])
+                if any(x is call for b_ in st.orelse for x in ast.walk(b_)):
+                    return rec(st.orelse, conds + [(st.test, False)])
+            elif any(x is call for x in ast.walk(st)):
+                if isinstance(st, (ast.For, ast.While, ast.With, ast.Try)):
+                    return rec(getattr(st, "body", []), conds)
+                return conds
+        return conds
+    return rec(loop.body, out)
+
+
+def _only_mentions(test, lv, attr):
+    names = {dotted(x) for x in ast.walk(test) if isinstance(x, ast.Attribute) and (dotted(x) or "").startswith(lv + ".")}
+    return all(n_ == "%s.%s" % (lv, attr) for n_ in names)
 
 
 def rule_undill(ctx, repo):
